@@ -101,6 +101,17 @@ def rand_op(rng, g, D, corr, nimg=1):
             return {"op": "resize", "size": [rng.randint(2, 7) for _ in range(D)], "ac": ac}
         return {"op": k, "levels": 2, "level": rng.randint(0, 1), "min_size": 0, "sigma": 0, "dims": None}
     if k == "resample":
+        ext = [float(a) for a in g.extent()]
+        cur = [float(v) for v in g.spacing()]
+        if rng.random() < .4:
+            # a new spacing that leaves the rounded shape unchanged (formerly returned unresampled data)
+            cand = [[sp_ for sp_ in (0.5, 0.625, 0.75, 0.875, 1.0, 1.125, 1.25, 1.5, 1.75, 2.0, 2.25, 2.5)
+                     if math.ceil(e / sp_ - 1e-9) == n_ and abs(e / sp_ - round(e / sp_)) > 1e-3 and abs(sp_ - c_) > 1e-6]
+                    for e, n_, c_ in zip(ext, n, cur)]
+            if not frac and any(cand):
+                sp = [rng.choice(c_) if c_ and rng.random() < .8 else cu for c_, cu in zip(cand, cur)]
+                if sp != cur:
+                    return {"op": k, "spacing": sp}
         for _ in range(20):
             sp = [rng.choice([0.5, 0.75, 1.0, 1.25, 1.5, 2.0]) for _ in range(D)]
             ext = [float(a) for a in g.extent()]
@@ -144,7 +155,20 @@ def rand_op(rng, g, D, corr, nimg=1):
             if not dims:
                 return rng.randint(-4, 4) / 8
             return [taps(dims[1:]) for _ in range(dims[0])]
-        return {"op": "conv", "kernel_nd": taps([rng.choice([1, 3]) for _ in range(D)])}
+        if corr:
+            return {"op": "conv", "kernel_nd": taps([rng.choice([1, 3]) for _ in range(D)])}
+        # the property speaks about normalised symmetric stencils: outer product of such 1-D kernels
+        ks1 = [rng.choice([[1.0], [0.25, 0.5, 0.25], [0.125, 0.75, 0.125]]) for _ in range(D)]
+
+        def outer(ks):
+            if len(ks) == 1:
+                return list(ks[0])
+            return [[a * x for x in row] if not isinstance(row, list) or not isinstance(row[0], list) else [[a * y for y in r2] for r2 in row]
+                    for a in ks[0] for row in [outer(ks[1:])]]
+        t = torch.tensor(ks1[0])
+        for k1 in ks1[1:]:
+            t = t.unsqueeze(-1) * torch.tensor(k1)
+        return {"op": "conv", "kernel_nd": t.tolist()}
     if k == "sample":
         gd = rand_grid(rng, D)
         gd["center"] = [float(v) + rng.choice([-0.5, 0.0, 0.25]) for v in g.center()]
